@@ -339,8 +339,8 @@ func (v *variablesVisitor) traverseFieldDefinitionType(fieldTypeDefinitionNodeKi
 				return
 			}
 
-			// An undefined required input field is valid if it has a default value
-			if v.definition.InputValueDefinitionHasDefaultValue(inputFieldRef) {
+			// An undefined required input field is valid if it has a default value, an explicit null is not
+			if jsonValue == nil && v.definition.InputValueDefinitionHasDefaultValue(inputFieldRef) {
 				return
 			}
 			v.renderVariableRequiredNotProvidedError(fieldName, typeRef)
